@@ -13,10 +13,16 @@
    Hypotheses: op_wf (policy keys of PolUpd events without '/', only for the pinned joined-string tie-break) and
    order_ok (the sorter's tie-break orders the policy keys of the net state like (name, namespace, kind): always
    true for the name-proper tie-break; for the pinned one this is exactly the complement of known finding
-   tiebreak-joined-string). *)
+   tiebreak-joined-string).
+
+   NOT PROVED: c03_model_meets_spec (the boolean oracle ok_history accepts every run of the repaired model).  Its
+   content IS proved in Prop form (c03_emitted_is_expected + c03_no_stale_view + c03_flush_clears_dirty +
+   c03_nothing_before_insync); what is missing is only the reflection glue: that the oracle's association-list
+   view built by apply_outs over the sorted per-flush output equals view_after pointwise, that sort_outs keeps
+   the endpoints distinct, and soundness of list_eqb/tout_eqb. *)
 From Coq Require Import List NArith ZArith Bool Sorted.
 From Verif.Common Require Import Labels.
-From Verif.C03 Require Import Model Spec Witness Order BT Split Resolver SpecProps Sorter Refine Char Main.
+From Verif.C03 Require Import Model Spec Witness Order BT Split Resolver SpecProps Sorter Refine Char Main Dirty.
 Import ListNotations.
 Open Scope N_scope.
 
@@ -246,6 +252,34 @@ Theorem c03_policy_order : forall v ops ord e ts t,
   In (e, Some ts) (flush_out v ops ord) -> In t ts -> SSb pol_before (to_pols t).
 Proof. exact emitted_policy_order. Qed.
 Print Assumptions c03_policy_order.
+
+(* ---------------------------------------------------------------- dirty marking: no stale view *)
+
+(* `view_after v ops e` = the last update emitted for e along the history.  After every history every endpoint that
+   is NOT marked dirty was last told a list characterised by the current net state (DM), and every endpoint matched
+   by a pending, known policy the sorter does not hold yet IS dirty (PD) *)
+Theorem c03_dirty_marking : forall v ops, v_fixed v = true -> Forall (op_wf v) ops ->
+  DM v (state_after v ops) (net ops) (view_after v ops) /\ PD (state_after v ops).
+Proof. exact dm_run. Qed.
+Print Assumptions c03_dirty_marking.
+
+(* hence: an endpoint not marked dirty was last told exactly expected_tiers of the net state (a removed endpoint:
+   nothing or "removed") *)
+Theorem c03_no_stale_view : forall v ops e,
+  v_fixed v = true -> Forall (op_wf v) ops -> order_ok v (net ops) ->
+  ~ In e (dirty (state_after v ops)) ->
+  (In e (d_eps (net ops)) ->
+     exists ts, view_after v ops e = Some (Some ts) /\ blank_missing (net ops) ts = expected_tiers (net ops) e)
+  /\ (~ In e (d_eps (net ops)) -> view_after v ops e = None \/ view_after v ops e = Some None).
+Proof. exact no_stale_view. Qed.
+Print Assumptions c03_no_stale_view.
+
+(* and an in-sync Flush leaves no endpoint dirty: after a history ending in-sync + flushed, EVERY local endpoint's
+   last update is expected_tiers *)
+Theorem c03_flush_clears_dirty : forall v ops ord, d_insync (net ops) = true ->
+  dirty (state_after v (ops ++ [Flush ord])) = [].
+Proof. exact flush_clears_dirty. Qed.
+Print Assumptions c03_flush_clears_dirty.
 
 (* ---------------------------------------------------------------- the defect *)
 
